@@ -301,3 +301,51 @@ func txEngine(f an.Facts, op, val string) bool {
 	}
 	return false
 }
+
+// leafVal is one value an expression can take, with the facts under which it takes it.
+type leafVal struct {
+	V ssa.Value
+	F an.Facts
+}
+
+// leavesOf resolves v to the values it can stand for: phis are followed edge by edge (with the facts of the edge
+// the operand comes in on), and a call of a private helper of the module with a single result is replaced by the
+// values the helper returns (with the facts of the returning block).  Rules that decide "which value reaches
+// this field under which condition" use it so that a named result, an if/else assignment, two return statements
+// and an extracted helper all read the same.
+func leavesOf(v ssa.Value, f an.Facts, depth int) []leafVal {
+	if depth > 6 {
+		return []leafVal{{v, f}}
+	}
+	switch x := v.(type) {
+	case *ssa.Phi:
+		var out []leafVal
+		for i, e := range x.Edges {
+			pred := x.Block().Preds[i]
+			si := 0
+			for k, sc := range pred.Succs {
+				if sc == x.Block() {
+					si = k
+				}
+			}
+			out = append(out, leavesOf(e, append(append(an.Facts{}, f...), an.EdgeFacts(pred, si)...), depth+1)...)
+		}
+		return out
+	case *ssa.Call:
+		h := x.Call.StaticCallee()
+		if h == nil || x.Call.IsInvoke() || len(h.Blocks) == 0 || h.Pkg == nil || !strings.HasPrefix(h.Pkg.Pkg.Path(), an.ModPath) || token.IsExported(h.Name()) || h.Signature.Results().Len() != 1 {
+			return []leafVal{{v, f}}
+		}
+		var out []leafVal
+		an.Instrs(h, func(in ssa.Instruction) {
+			if r, ok := in.(*ssa.Return); ok && len(r.Results) == 1 {
+				out = append(out, leavesOf(r.Results[0], append(append(an.Facts{}, f...), an.FactsAtBlock(r.Block())...), depth+1)...)
+			}
+		})
+		if len(out) == 0 {
+			return []leafVal{{v, f}}
+		}
+		return out
+	}
+	return []leafVal{{v, f}}
+}
